@@ -4,7 +4,8 @@
 # against it through VERIF_REPO, prints one line per check, removes the copy.
 set -u
 patch=$(readlink -f "$1"); tier=$2; shift 2
-work=$(mktemp -d /tmp/trypatch.XXXXXX)
+# TRY_SLOT=<n>: reuse a fixed scratch path (and so the cached dependency builds) for this slot
+if [ -n "${TRY_SLOT:-}" ]; then work=/tmp/trypatch_slot_$TRY_SLOT; rm -rf "$work"; mkdir -p "$work"; else work=$(mktemp -d /tmp/trypatch.XXXXXX); fi
 git -C /repo archive HEAD | tar -x -C "$work"
 if ! git -C "$work" init -q 2>/dev/null; then :; fi
 ( cd "$work" && patch -p1 --fuzz=3 -s < "$patch" >/dev/null 2>&1 ) || { echo "PATCH-DOES-NOT-APPLY $patch"; rm -rf "$work"; exit 3; }
@@ -17,4 +18,4 @@ for prop in "$@"; do
   [ $rc -eq 2 ] && echo "$out" | grep MACHINERY | head -3
 done
 tag=$(python3 -c "import hashlib,sys;print(hashlib.sha1(sys.argv[1].encode()).hexdigest()[:12])" "$work")
-rm -rf "$work" "/verif/target/alt/$tag"
+if [ -n "${TRY_SLOT:-}" ]; then rm -rf "$work"; else rm -rf "$work" "/verif/target/alt/$tag"; fi
